@@ -692,6 +692,9 @@ func (fr *Frame) applyContract(ins ssa.CallInstruction, ci *calleeInfo, args []T
 		}
 	}
 	for _, g := range fc.GhostAts {
+		if d := c.V.CS.Ghosts[g.Var]; d != nil && d.Local {
+			continue // the callee's own instance
+		}
 		if g.When == "return" || g.When == "entry" {
 			v := envPost.eval(g.E)
 			c.setGhost(fr.st, g.Var, v.T)
@@ -714,6 +717,24 @@ func (fr *Frame) preciseModSet(fc *FuncContract, env *Env) *ModSet {
 	m := newModSet()
 	if fc.ModAll {
 		m.all = true
+		// `modifies *` covers the heap; the ghosts the callee may change are those its own
+		// contract assigns or talks about in a postcondition
+		for _, g := range fc.GhostAts {
+			m.ghosts[g.Var] = true
+		}
+		for _, e := range fc.Ensures {
+			ghostsIn(e.E, m.ghosts)
+		}
+		for _, cl := range fc.Modifies {
+			if g, ok := cl.E.(EGhost); ok {
+				m.ghosts[g.Name] = true
+			}
+		}
+		for g := range m.ghosts {
+			if d := c.V.CS.Ghosts[g]; d != nil && d.Local {
+				delete(m.ghosts, g)
+			}
+		}
 		return m
 	}
 	for _, g := range fc.GhostAts {
@@ -1336,4 +1357,40 @@ func (fr *Frame) onceDo(ins ssa.CallInstruction, once Term, cv *closureVal) {
 	fr.st = fr.mergeStates([]inEdge{{guard: and(saveReach, first), st: after}, {guard: and(saveReach, not(first)), st: before}}, nil)
 	c.setGhost(fr.st, "onceDone", sto(c.ghost(fr.st, "onceDone"), once, tTrue))
 	c.assumed["sync.Once.Do runs its argument iff the Once has not fired (ghost $onceDone)"] = true
+}
+
+// ghostsIn collects the ghost variables an expression mentions.
+func ghostsIn(e Expr, out map[string]bool) {
+	switch x := e.(type) {
+	case EGhost:
+		out[x.Name] = true
+	case EUnary:
+		ghostsIn(x.X, out)
+	case EBinary:
+		ghostsIn(x.X, out)
+		ghostsIn(x.Y, out)
+	case ECall:
+		for _, a := range x.Args {
+			ghostsIn(a, out)
+		}
+	case ESel:
+		ghostsIn(x.X, out)
+	case EIndex:
+		ghostsIn(x.X, out)
+		ghostsIn(x.I, out)
+	case EUpdate:
+		ghostsIn(x.X, out)
+		ghostsIn(x.I, out)
+		ghostsIn(x.V, out)
+	case EQuant:
+		ghostsIn(x.Body, out)
+	case ECond:
+		ghostsIn(x.C, out)
+		ghostsIn(x.A, out)
+		ghostsIn(x.B, out)
+	case EOld:
+		ghostsIn(x.X, out)
+	case EDeref:
+		ghostsIn(x.X, out)
+	}
 }
